@@ -72,6 +72,15 @@ func runC03(r *Run) {
 	c03RawChain(r)
 	r.Rule("C03.R9")
 	c03SCTListReader(r)
+
+	// both routes re-marshal the TBSCertificate through the ASN.1 fork: every byte that is not the
+	// removed extension survives only if the fork parses and encodes like the library it was forked
+	// from (validity times, lengths, string types) — rule set C10.R3
+	r.Shared("C03.R10", func() {
+		if li := c10ComputeLax(r); li.field != nil {
+			c10R3(r, li)
+		}
+	})
 }
 
 // c03OID checks the value of an OID variable from its initialiser.
